@@ -296,7 +296,7 @@ Proof.
       * apply (strinv_same s); auto.
       * unfold CtlInv, waiter_ok. cbn. rewrite Hw. repeat split; auto; try discriminate.
       * mofeq.
-    + cbn [advance mofp with_pend mof m_pend]. rewrite Hrem. cbn. good4.
+    + cbn [advance mofp with_pend mof m_pend m_cur]. rewrite Hrem, Hr. cbn. good4.
       * exact Hs.
       * unfold CtlInv. rewrite Hh. exact Hw.
       * unfold mof. rewrite Hpend. reflexivity.
@@ -326,7 +326,7 @@ Proof.
       * apply (strinv_same s); auto.
       * unfold CtlInv, waiter_ok. cbn. rewrite Hw. repeat split; auto; try discriminate.
       * mofeq.
-    + cbn [advance mofp with_pend mof m_pend]. rewrite Hrem. cbn. good4.
+    + cbn [advance mofp with_pend mof m_pend m_cur]. rewrite Hrem, Hr. cbn. good4.
       * apply (strinv_same s); auto.
       * unfold CtlInv. cbn. rewrite Hh. exact Hw.
       * mofeq.
@@ -644,6 +644,76 @@ Proof.
         destruct o2 as [|x r]; [destruct Hhd|]. destruct x; try destruct Hhd; exact Hl.
 Qed.
 
+(* ------------------------------------------------------------------ rapid restarts *)
+
+(* what a restart or a refresh leaves alone *)
+Definition same_ctl (s s' : st) : Prop :=
+  hold s' = hold s /\ wait s' = wait s /\ conf s' = conf s /\ tmo s' = tmo s /\ subs s' = subs s /\
+  feature s' = feature s.
+
+Lemma same_ctl_refl s : same_ctl s s.
+Proof. repeat split. Qed.
+
+Lemma same_ctl_trans a b c : same_ctl a b -> same_ctl b c -> same_ctl a c.
+Proof. unfold same_ctl. intros [? [? [? [? [? ?]]]]] [? [? [? [? [? ?]]]]]. repeat split; congruence. Qed.
+
+Lemma restart1_ok s : StrInv s -> feature s = true ->
+  StrInv (restart1 s) /\ running (restart1 s) = true /\ same_ctl s (restart1 s) /\
+  counter (restart1 s) = counter s /\ data (restart1 s) = data s.
+Proof.
+  intros Hs Hf. unfold restart1.
+  assert (H : exists s', (match cur s with Some g => if running s then do_close s g else s | None => s end) = s' /\
+              StrInv s' /\ running s' = false /\ same_ctl s s' /\ counter s' = counter s /\ data s' = data s).
+  { destruct (cur s) as [g|] eqn:Eg.
+    - destruct (running s) eqn:Hr.
+      + exists (do_close s g). split; [reflexivity|]. split; [apply strinv_close; assumption|].
+        split; [apply running_close; assumption|]. repeat split.
+      + exists s. split; [reflexivity|]. split; [exact Hs|]. split; [exact Hr|].
+        split; [apply same_ctl_refl|split; reflexivity].
+    - exists s. split; [reflexivity|]. split; [exact Hs|].
+      split; [unfold running; rewrite Eg; reflexivity|]. split; [apply same_ctl_refl|split; reflexivity]. }
+  destruct H as [s' [-> [Hs' [Hr' [Hsame [Hc Hd]]]]]].
+  assert (Hf' : feature s' = true) by (destruct Hsame as [_ [_ [_ [_ [_ E]]]]]; congruence).
+  split; [apply strinv_make; assumption|]. split; [apply running_make; assumption|].
+  split; [|split; [exact Hc|exact Hd]].
+  apply (same_ctl_trans s s'); [exact Hsame|repeat split].
+Qed.
+
+Lemma restart_ok k : forall s, StrInv s -> feature s = true -> (0 < k)%nat ->
+  StrInv (restart k s) /\ running (restart k s) = true /\ same_ctl s (restart k s) /\
+  counter (restart k s) = counter s /\ data (restart k s) = data s.
+Proof.
+  induction k as [|k IH]; intros s Hs Hf Hk; [lia|].
+  cbn [restart]. destruct (restart1_ok s Hs Hf) as [Hs1 [Hr1 [Hsame1 [Hc1 Hd1]]]].
+  assert (Hf1 : feature (restart1 s) = true) by (destruct Hsame1 as [_ [_ [_ [_ [_ E]]]]]; congruence).
+  destruct k as [|k'].
+  - cbn [restart]. split; [exact Hs1|]. split; [exact Hr1|]. split; [exact Hsame1|]. split; assumption.
+  - destruct (IH (restart1 s) Hs1 Hf1 ltac:(lia)) as [Hs2 [Hr2 [Hsame2 [Hc2 Hd2]]]].
+    split; [exact Hs2|]. split; [exact Hr2|]. split; [exact (same_ctl_trans _ _ _ Hsame1 Hsame2)|].
+    split; congruence.
+Qed.
+
+Lemma refresh_n_ok n : forall s, StrInv s ->
+  StrInv (refresh_n n s) /\ running (refresh_n n s) = running s /\ cur (refresh_n n s) = cur s /\
+  same_ctl s (refresh_n n s) /\ counter (refresh_n n s) = (counter s + N.of_nat n)%N /\
+  ((0 < n)%nat -> data (refresh_n n s) = Some (counter (refresh_n n s))).
+Proof.
+  induction n as [|n IH]; intros s Hs.
+  - cbn [refresh_n]. split; [exact Hs|]. split; [reflexivity|]. split; [reflexivity|].
+    split; [apply same_ctl_refl|]. split; [rewrite N.add_0_r; reflexivity|lia].
+  - cbn [refresh_n].
+    assert (Hs1 : StrInv (fst (do_refresh s))) by (apply (strinv_same s); auto).
+    destruct (IH (fst (do_refresh s)) Hs1) as [H1 [H2 [H3 [H4 [H5 H6]]]]].
+    split; [exact H1|]. split; [exact H2|]. split; [exact H3|].
+    split; [exact (same_ctl_trans s (fst (do_refresh s)) _ ltac:(repeat split) H4)|].
+    split.
+    + rewrite H5. cbn [do_refresh fst counter]. lia.
+    + intros _. destruct n as [|n'].
+      * reflexivity.
+      * apply H6. lia.
+Qed.
+
+
 (* ------------------------------------------------------------------ every step, every history *)
 
 Lemma si_set_conf s t : SI s -> 0 < t -> SI (set_conf s t).
@@ -661,7 +731,7 @@ Proof.
   intros HSI. pose proof HSI as [Hs [Hc Ht]].
   assert (HSI0 : SI (set_conf s (tmo s))) by (apply si_set_conf; assumption).
   unfold mon. cbn [m_tmo m_conf mof]. rewrite mof_set_conf.
-  destruct o as [t|t c|t|g|g k| | |]; cbn [step].
+  destruct o as [t|t c|t|g|g k|md k n| | |]; cbn [step].
   - destruct (conf s || bad_tmo t) eqn:E.
     + cbn. split; [reflexivity|]. split; [exact HSI0|exists a; reflexivity].
     + cbn. apply orb_false_iff in E. destruct E as [_ E]. unfold bad_tmo in E.
@@ -673,6 +743,34 @@ Proof.
   - destruct (Nat.leb 2 k && Nat.leb k max_run) eqn:E.
     + apply andb_true_iff in E. destruct E as [E _]. apply run_ok; assumption.
     + cbn. split; [reflexivity|]. split; [exact HSI0|exists a; reflexivity].
+  - (* Burst *)
+    set (s0 := set_conf s (tmo s)) in *. destruct HSI0 as [Hs0 [Hc0 Ht0]].
+    unfold step_burst. destruct (burst_ok k n) eqn:Eb;
+      [|cbn; split; [reflexivity|]; split; [split; [exact Hs0|split; [exact Hc0|exact Ht0]]|exists a; reflexivity]].
+    cbn [m_pend mof]. unfold pend_of at 1. unfold CtlInv in Hc0.
+    destruct (hold s0) as [[th p]|] eqn:Hh.
+    + destruct p; cbn; (split; [reflexivity|]; split;
+        [split; [exact Hs0|split; [unfold CtlInv; rewrite Hh; exact Hc0|exact Ht0]]|exists a; reflexivity]).
+    + rewrite Hc0. cbn [app].
+      destruct (feature s0) eqn:Hf.
+      * unfold burst_ok in Eb. repeat (apply andb_true_iff in Eb; destruct Eb as [Eb ?]).
+        assert (Hk : (0 < k)%nat) by (apply Nat.leb_le in Eb; lia).
+        assert (Hn : (0 < n)%nat) by (match goal with H : Nat.leb 2 n = true |- _ => apply Nat.leb_le in H; lia end).
+        destruct (restart_ok k s0 Hs0 Hf Hk) as [Hs1 [Hr1 [Hsame1 [Hc1 Hd1]]]].
+        destruct (refresh_n_ok n (restart k s0) Hs1) as [Hs2 [Hr2 [Hcur2 [Hsame2 [Hc2 Hd2]]]]].
+        pose proof (same_ctl_trans _ _ _ Hsame1 Hsame2) as [Eh [Ew [Ecf [Etm [Esu Efe]]]]].
+        destruct (running_true _ Hr1) as [g [Eg _]]. rewrite Eg.
+        cbn [m_last m_subs mof]. rewrite Hc2, Hc1.
+        replace (N.leb (counter s0 + N.of_nat n) (counter s0 + N.of_nat n)) with true by (symmetry; apply N.leb_refl).
+        unfold nnotify. cbn. rewrite N.eqb_refl.
+        change (hold s) with (hold s0). change (wait s) with (wait s0). rewrite Hh, Hc0.
+        split; [reflexivity|]. split.
+        -- split; [exact Hs2|]. split; [|rewrite Etm; exact Ht0].
+           unfold CtlInv. rewrite Eh, Hh, Ew. exact Hc0.
+        -- exists true. unfold mof, pend_of. rewrite Eh, Hh, Ew, Hc0, Ecf, Etm, Esu, Efe, Hr2, Hr1, Hcur2, Eg.
+           rewrite (Hd2 Hn), Hc2, Hc1. reflexivity.
+      * cbn [m_feat mof]. rewrite Hf. cbn. split; [reflexivity|]. split;
+          [split; [exact Hs0|split; [unfold CtlInv; rewrite Hh; exact Hc0|exact Ht0]]|exists a; reflexivity].
   - cbn. split; [reflexivity|]. split; [apply si_set_subs; exact HSI0|exists a; reflexivity].
   - cbn. split; [reflexivity|]. split; [apply si_set_subs; exact HSI0|exists a; reflexivity].
   - cbn. replace (eqb_oN (data s) (data s)) with true by (destruct (data s); cbn; [rewrite N.eqb_refl|]; reflexivity).
@@ -804,6 +902,8 @@ Proof.
   - apply resume_no_panic. exact HSI0.
   - apply tick_no_panic. exact HSI0.
   - destruct (Nat.leb 2 k && Nat.leb k max_run); [apply run_ticks_no_panic; exact HSI0|reflexivity].
+  - unfold step_burst. destruct (burst_ok k n); [|reflexivity].
+    destruct (hold (set_conf s (tmo s))); [reflexivity|]. destruct (feature (set_conf s (tmo s))); reflexivity.
   - reflexivity.
   - reflexivity.
   - reflexivity.
